@@ -61,6 +61,8 @@ module Nat :
   val ltb : nat -> nat -> bool
 
   val min : nat -> nat -> nat
+
+  val even : nat -> bool
  end
 
 module Pos :
@@ -1055,7 +1057,66 @@ val xloc_eqb : xloc -> xloc -> bool
 
 val may_clobber : z -> z -> bool
 
+val dest_reg : xins -> z option
+
+val pinned : z -> bool
+
+val keeps_pinned : xins list -> bool
+
 val form_ok : z -> binstr -> z -> xins list -> bool
+
+type kins =
+| KPush of z
+| KPop of z
+| KSubRsp
+| KAddRsp
+| KMovRR of z * z
+| KLoad of z * z
+| KMovI of z * z
+| KCall of z
+| KTest8 of z
+| KCmp64 of z * z
+| KJe
+| KJne
+| KStore of z * z
+
+type kval =
+| VInit of z
+| VCell of z
+| VRet of z
+| VImm of z
+| VJunk
+
+type ktest =
+| TNone
+| TTest8 of kval
+| TCmp64 of kval * z
+
+type ksym = { yr : (z * kval) list; ystore : (z * kval) list; yk : kval list;
+              ycalls : (kval * kval) list; ytest : ktest; ycalled : bool;
+              yexit : (bool * ktest) option }
+
+val ksym0 : ksym
+
+val klook : z -> (z * kval) list -> kval -> kval
+
+val yget : ksym -> z -> kval
+
+val yset : ksym -> z -> kval -> ksym
+
+val ystep : ksym -> kins -> ksym option
+
+val yrun : kins list -> ksym -> ksym option
+
+val kval_eqb : kval -> kval -> bool
+
+val must_keep : z -> z -> bool
+
+val regs_restored : z -> ksym -> bool
+
+val u64M1 : z
+
+val call_ok : binstr -> z -> kins list -> bool
 
 type kind =
 | KPrintIr
